@@ -86,6 +86,7 @@ func parent() int {
 	defer os.RemoveAll(tmp)
 
 	var wg sync.WaitGroup
+	var herrs []string
 	errs := make([]error, shards)
 	outs := make([][]byte, shards)
 	for i := 0; i < shards; i++ {
@@ -118,8 +119,8 @@ func parent() int {
 					return 2
 				}
 			}
-			fmt.Fprintf(os.Stderr, "HARNESS-ERROR worker %d: %v\n%s\n", i, e, tail(string(outs[i]), 4000))
-			return 2
+			// the shard is lost; violations confirmed by other shards are still reported (see the end)
+			herrs = append(herrs, fmt.Sprintf("worker %d: %v\n%s", i, e, tail(string(outs[i]), 4000)))
 		}
 	}
 
@@ -132,17 +133,17 @@ func parent() int {
 	for i := 0; i < shards; i++ {
 		b, err := os.ReadFile(filepath.Join(tmp, fmt.Sprintf("shard-%d.json", i)))
 		if err != nil {
-			fmt.Fprintf(os.Stderr, "HARNESS-ERROR missing shard result %d: %v\n", i, err)
-			return 2
+			herrs = append(herrs, fmt.Sprintf("missing shard result %d: %v", i, err))
+			continue
 		}
 		var sf shardFile
 		if err := json.Unmarshal(b, &sf); err != nil {
-			fmt.Fprintf(os.Stderr, "HARNESS-ERROR bad shard result %d: %v\n", i, err)
-			return 2
+			herrs = append(herrs, fmt.Sprintf("bad shard result %d: %v", i, err))
+			continue
 		}
 		if sf.HarnessError != "" {
-			fmt.Fprintf(os.Stderr, "HARNESS-ERROR shard %d: %s\n", i, sf.HarnessError)
-			return 2
+			herrs = append(herrs, fmt.Sprintf("shard %d: %s", i, sf.HarnessError))
+			continue
 		}
 		tot.Executions += sf.Executions
 		tot.Scans += sf.Scans
@@ -247,7 +248,10 @@ func parent() int {
 	}
 
 	wall := time.Since(start).Seconds()
-	exhaustive := !tot.Capped
+	exhaustive := !tot.Capped && len(herrs) == 0
+	if len(herrs) > 0 {
+		tot.Notes = append(tot.Notes, fmt.Sprintf("%d shard(s) were lost to a harness error; the counts cover the surviving shards only", len(herrs)))
+	}
 	cov := map[string]any{
 		"evaluations":         tot.Evaluations,
 		"distinct_nontrivial": len(nontriv),
@@ -298,8 +302,15 @@ func parent() int {
 	}
 	fmt.Printf("%s %s: evaluations=%d executions=%d scans=%d states=%d transitions=%d nontrivial=%d outcomes=%d maxdev=%d exhaustive=%v violations=%d known=%d wall=%.1fs\n",
 		id, tier, tot.Evaluations, tot.Executions, tot.Scans, len(states), tot.Transitions, len(nontriv), tot.Outcomes, tot.MaxDev, exhaustive, violations, knownSeen, wall)
+	for _, e := range herrs {
+		fmt.Fprintf(os.Stderr, "HARNESS-ERROR %s\n", e)
+	}
 	if violations > 0 {
+		// a violation found and replayed identically by a surviving shard stands even if another shard was lost
 		return 1
+	}
+	if len(herrs) > 0 {
+		return 2
 	}
 	return 0
 }
